@@ -89,6 +89,9 @@ class FamilyResult:
         self.build_s = 0.0
         self.run_s = 0.0
         self.rebuilds = 0
+        self.name = ""
+        self.extra_header = ""
+        self.deps_override = None
 
 
 def _attribute(msg, ranges_by_pkg, pkg):
@@ -119,6 +122,7 @@ def _attribute(msg, ranges_by_pkg, pkg):
 def run_family(name, progs, shards=None, extra_header="", extra_deps="", timeout=3000, keep_going=True, deps_override=None, header_override=None):
     """Build and run a family. Returns FamilyResult. Raises MachineryError on harness problems."""
     res = FamilyResult()
+    res.name, res.extra_header, res.deps_override = name, extra_header, deps_override
     if not progs:
         raise MachineryError("family %s is empty" % name)
     shards = shards or NCPU
